@@ -396,6 +396,18 @@ def install_wrapper_stubs(E, ctx, R, my, opts):
         raise Unsupported('del on %r' % (o,), node)
     Bn['__delitem__'] = delitem
 
+    def contains(E_, o, k, node):
+        if o in ctx.tables:
+            key_ok(k, node)
+            access('key in events')
+            return R.cur().m_has
+        if o is ctx.cache_obj:
+            key_ok(k, node)
+            access('key in _cache')
+            return R.cur().c_has
+        raise Unsupported('in %r' % (o,), node)
+    Bn['__contains__'] = contains
+
     def dict_get(o):
         def fn(E_, a, k):
             key_ok(a[0], None)
@@ -454,6 +466,10 @@ def install_wrapper_stubs(E, ctx, R, my, opts):
                     o.fields['cancel_called'] = True
                     return VBool(True)
                 return VStub('Task.cancel', fn)
+            if name == 'cancelling':
+                # counts cancel() REQUESTS made on the task: a task that ended cancelled because the future it
+                # awaited was cancelled (the foreign case) has none (conformance: asyncio_facts)
+                return VStub('Task.cancelling', lambda E_, a, k: VInt(1 if o.fields['cancel_called'] else 0))
         if isinstance(o, Obj) and o.cls == 'CurrentTask':
             if name == 'cancelling':
                 def fn(E_, a, k):
